@@ -295,7 +295,45 @@ example :
     ∧ WfUrl { scheme := "http".toList, host := .zoned "FE80::1".toList "%25".toList "eth0".toList,
               port := some "8080".toList, path := "/x".toList } := by
   refine ⟨by decide, by decide, by decide, ?_⟩
-  exact ⟨by decide, by decide, "25".toList, rfl, by decide⟩
+  refine ⟨?_, by decide, by decide, by decide, "25".toList, rfl, by decide⟩
+  intro p hp; simp only [Option.some.injEq] at hp; subst hp; decide
+
+/-- **End to end, text level** (clause 8 in one statement): for every well-formed URL with a zone identifier and
+    ALL default / caller header maps, (i) the text-level transcription of `_fixed_host_header` applied to the
+    rendered URL yields exactly `[` lower-cased address `]` + `:port`, (ii) that is the ONE Host header in what
+    `_request_headers` hands to `session.request`, and (iii) it contains no `%` and is not empty — whatever the
+    zone, its delimiter spelling, and whatever `Host` / `HOST` the caller supplied. -/
+theorem host_header_end_to_end (u : Url) (own caller : Headers) (a d z : Str)
+    (hu : u.host = .zoned a d z) (hw : WfUrl u) :
+    let v := ('[' :: lowerStr a ++ [']']) ++ (match u.port with | some p => ':' :: p | none => [])
+    fixedHostText u.render (some (urlparseHostname u)) (urlparsePort u) = some v
+      ∧ hostValues (requestHeaders u own caller) = [v] ∧ '%' ∉ v ∧ v ≠ [] := by
+  have hw' := hw
+  simp only [WfUrl, hu] at hw'
+  obtain ⟨hport, ha, hcolon, _, _⟩ := hw'
+  have hfix : fixedHost u = some (('[' :: lowerStr a ++ [']']) ++ (match u.port with | some p => ':' :: p | none => [])) := by
+    unfold fixedHost
+    rw [hu]
+    simp only [contains_iff.mpr (colon_mem_lowerStr a hcolon), if_true]
+    cases u.port <;> simp
+  obtain ⟨v, h1, h2, h3, _⟩ := host_zone_stripped u own caller a d z hu ha
+    (fun p hp => percent_not_mem_port p (hport p hp))
+  rw [hfix] at h1
+  cases h1
+  exact ⟨by rw [fixed_host_text u hw, hfix], h3, h2, by simp⟩
+
+/-- **"Repeating THE request"** (clause 7): the retry loop and the final attempt call `_async_http_request`
+    with the same argument list `(method, url, headers, body)`, and both requesters hand exactly
+    `method, url, headers=req_headers, data=body, timeout=self._timeout` to `session.request` — re-decided on the
+    argument lists the translator extracts on every run (the translator also pins
+    `req_headers = _request_headers(url, self._http_headers, headers)` and refuses any other statement before the try). -/
+theorem request_identity :
+    Gen.C17.retryCallArgs = Gen.C17.finalCallArgs
+    ∧ Gen.C17.finalCallArgs = ["method".toList, "url".toList, "headers".toList, "body".toList]
+    ∧ Gen.C17.plainRequestArgs = Gen.C17.innerRequestArgs
+    ∧ Gen.C17.innerRequestArgs = ["method".toList, "url".toList, "headers=req_headers".toList, "data=body".toList,
+        "timeout=self._timeout".toList] := by
+  decide
 
 /-- without a zone nothing is contributed: the headers are the plain merge `{**own, **caller}` -/
 theorem host_untouched_without_zone (u : Url) (own caller : Headers) (h : hasZone u = false) :
